@@ -195,6 +195,17 @@ func genScenario(o world.Opts) *Scenario {
 	}
 	if o.Prop == "C17" {
 		genC17(sc)
+	} else if simrt.Flip("c16.host-fault", 0.2) {
+		// the host itself has a reason to fail, next to whatever the plugins do: every
+		// plugin it has started by then must still be told goodbye and reaped
+		switch simrt.Choice("c16.host-fault-kind", 3) {
+		case 0:
+			genFailModule(sc)
+		case 1:
+			sc.OutputFile = outputFileShapes[simrt.Choice("c16.output-file-shape", len(outputFileShapes))]
+		case 2:
+			genLayout(sc)
+		}
 	}
 	genSimKnobs(sc)
 	return sc
